@@ -197,6 +197,26 @@ def CONNECTION : Bytes := [99, 111, 110, 110, 101, 99, 116, 105, 111, 110]
 def wantsClose (hdrs : HMap) : Bool :=
   lowerCase ((mapLookup CONNECTION hdrs).getD []) == CLOSE
 
+/-- what `on_read` does with a parsed request: the part between `m_handlers.find(req.path)` and
+    the `async_write` -/
+inductive Answer where
+  | stall                                  -- a stalled path: `return` without a response
+  | fail                                   -- the handler threw a `std::exception`
+  | ub
+  | respond (r : Bytes) (close : Bool)     -- m_send_buffer, and `lower_case(headers["connection"]) == "close"`
+  deriving DecidableEq, Repr
+
+def answer (s : Srv) (req : Request) : Answer :=
+  match findHandler req.path s.handlers with
+  | none =>
+    if s.stalls.contains req.path then .stall
+    else .respond (sendResponse 404 (str "Not Found") 0 []) (wantsClose req.headers)   -- no handler found, 404
+  | some h =>
+    match h.run req.headers with
+    | .error .throw => .fail
+    | .error .ub => .ub
+    | .ok r => .respond r (wantsClose req.headers)
+
 /-- `http_server::on_read(ec, bytes_transferred)`; `data` = the bytes the transport stored at
     `&m_recv_buffer[m_bytes_used]` (`bytes_transferred = data.length`; empty for the re-entry
     posted by `on_write`) -/
@@ -217,17 +237,12 @@ def Srv.onRead (s : Srv) (ec : Ec) (data : Bytes) : Srv × List Act :=
       -- m_recv_buffer.erase(begin, begin + req_len); m_bytes_used -= req_len
       if reqLen.toNat > s.buf.length ∨ reqLen.toNat > s.used then (s, [.ub]) else
       let s := { s with buf := s.buf.drop reqLen.toNat, used := s.used - reqLen.toNat }
-      match findHandler req.path s.handlers with
-      | none =>
-        if s.stalls.contains req.path then (s, [])
-        else
-          let r := sendResponse 404 (str "Not Found") 0 []
-          ({ s with sendBuf := r }, [.asyncWrite r (wantsClose req.headers)])
-      | some h =>
-        match h.run req.headers with
-        | .error .throw => s.closeConnection          -- catch (std::exception&)
-        | .error .ub => (s, [.ub])
-        | .ok r => ({ s with sendBuf := r }, [.asyncWrite r (wantsClose req.headers)])
+      -- handler lookup, stall test, 404; then `async_write(m_connection, m_send_buffer, on_write(close))`
+      match answer s req with
+      | .stall => (s, [])
+      | .fail => s.closeConnection                    -- catch (std::exception&)
+      | .ub => (s, [.ub])
+      | .respond r close => ({ s with sendBuf := r }, [.asyncWrite r close])
 
 /-- `http_server::on_write(ec, bytes_transferred, close)` -/
 def Srv.onWrite (s : Srv) (ec : Ec) (close : Bool) : Srv × List Act :=
